@@ -59,6 +59,7 @@ type SNode struct {
 	Presence bool
 	Module   string // "" main module; otherwise name of the augmenting module that contributes the node
 	Ordered  bool   // ordered-by user
+	Short    bool   // case written in shorthand form (the case statement is implicit)
 	Meta     meta.Definition
 }
 
@@ -237,6 +238,10 @@ func (n *SNode) yang(b *strings.Builder, ind string, mod string) {
 }
 
 func (n *SNode) yangBody(b *strings.Builder, ind string, mod string) {
+	if n.Kind == Case && n.Short {
+		n.Children[0].yangBody(b, ind, mod)
+		return
+	}
 	fmt.Fprintf(b, "%s%s %s {\n", ind, n.Kind, n.Name)
 	in := ind + "  "
 	if n.When != "" {
@@ -634,6 +639,11 @@ func (g *gen) choice(depth int, scope map[string]bool, nest int) *SNode {
 			default:
 				cs.Children = append(cs.Children, g.leaf(scope, without(g.o.Types, "empty")))
 			}
+		}
+		if len(cs.Children) == 1 && cs.Children[0].Kind != Choice && g.r.Intn(3) == 0 {
+			cs.Short = true
+			delete(scope, cs.Name)
+			cs.Name = cs.Children[0].Name
 		}
 		ch.Children = append(ch.Children, cs)
 	}
